@@ -20,6 +20,7 @@ func VH_C12_snps_sched() {
 		return string(w.buf)
 	}
 	base := run()
+	vNumCPU(1 + vChoice("ncpu", vParam("NCPU")+1))
 	vSchedExplore(vParam("DEV"))
 	vAssert("C12.snps.output-independent-of-schedule", run() == base)
 }
